@@ -676,7 +676,7 @@ def gen_model(rng):
         form = rng.choice(["({lo},{v})", "({lo}, {v}, {up})", "{v}", "({v})", "{v} FIX", "({lo},{v},{up}) ; TV{n}", "{v} ; {n}", "(0,{v})  ; x"])
         v = rng.choice(["0.1", "1", "0.00469307", "1.00916", "2.5", "1E-1"])
         line = form.format(lo="0", v=v, up=rng.choice(["10", "100", "1E3"]), n=["CL", "V", "KA", "Q"][i - 1])
-        if i > 1 and rng.random() < 0.3:
+        if i > 1 and rng.random() < 0.3 and ";" not in s[s.rstrip("\n").rfind("\n") + 1:]:
             s = s.rstrip("\n") + " " + line + "\n"
         else:
             s += rng.choice(["$THETA ", "$THETA  ", "$THETA\t"]) + line + "\n"
